@@ -15,7 +15,8 @@ REQUIRED = ['adjOrder_length', 'adjOrder_mem', 'adjOrder_symmetric', 'adjOrder_v
             'shiftPts_spec', 'nasuOps_count', 'wg_file_structure', 'wg_bunch_compiles', 'outFile_empty', 'outFile_name', 'countOpen_append', 'repeat_multiplies',
             'execStmts_atoms', 'write_atoms', 'writes_pass', 'execRep_scans', 'group_scans_replayed', 'wg_groups_replayed', 'nasu_passes_replayed', 'mk_scans_replayed',
             'execOps_append_ok', 'shipped_headers_still', 'moveTo_run', 'head_run', 'wg_file_replayed',
-            'linear_chainOK', 'runSegs_chainOK', 'built_closed', 'built_group_hyps']
+            'linear_chainOK', 'runSegs_chainOK', 'built_closed', 'built_group_hyps',
+            'lastOp_run', 'file_replayed', 'nasuOps_eq', 'nasu_file_replayed', 'mk_rep_pre', 'mk_body_moves', 'mk_file_replayed']
 RULE = ('stream adj: NasuWaveguide.adj_scan_order for every adj_scan in 1..64 (exhaustive over that range) compared exactly with the '
         'model and judged directly (length, symmetric, unit spacing, outward).  stream writers: real WaveguideWriter / NasuWriter / '
         'MarkerWriter on random object lists (scans 1..7, groups of equal scan, adj_scan 1..9 odd and even, 3-D shifts, empty '
@@ -35,11 +36,18 @@ CLAIM = {
             'j<n (unit spacing, centred), is ordered outward (|.| non-decreasing) and starts at the centre-most pass, for every n; '
             'the shifted copy leaves feed and shutter untouched; the Nasu program has exactly sum(adj_scan) writes; the waveguide '
             'program is a compiler session (so C03 balance and C12 accounting apply) with one REPEAT scan per bunch whose body is '
-            'the members\' writes in order; file naming / empty-writer rules. Tied to the code by comparing the files real writers '
+            'the members\' writes in order; file naming / empty-writer rules. Machine-move level (session 5, on top of C01.write_replays): '
+            'writes_pass / execRep_scans / group_scans_replayed / mk_scans_replayed / nasu_passes_replayed / wg_groups_replayed — for closed '
+            'paths that write accepts, the reference controller performs every group exactly scan times (each pass every member point for '
+            'point, from where the previous one ended), every Nasu waveguide once per adjacent pass, every marker scan times; '
+            'wg_file_replayed — the whole waveguide file (any still header, e.g. the four shipped ones; no session rotation) performs '
+            'groupsFrom and then only closed-shutter positioning moves; built_closed — every path built by start / linear / end is such a '
+            'closed 0/1 path. groupsFrom of the printed matrices is evaluated against the controller\'s moves on every real writer file. '
+            'Tied to the code by comparing the files real writers '
             'produce (listing + unrolled controller trace) with the model session on generated object lists, every run.',
     'note': 'Trusted: Lean kernel/Mathlib, Model/Writers.lean + Model/Gcode.lean tied differentially; the per-iteration replay of each '
             'write is theorem C01.write_replays.',
-    'technique': 'Lean 4 proof (lists, arithmetic progression) + differential correspondence on controller traces',
+    'technique': 'Lean 4 proof (lists, arithmetic progression; induction over groups and loop turns on top of the C01 replay theorem) + spec-on-implementation (groupsFrom on the real files) + differential correspondence on controller traces',
 }
 
 
